@@ -239,6 +239,25 @@ PROPS = {
                 "(total >= 2^29); distinct = hash of the case JSON.",
         "assumptions": COMMON_ASSUME + ["the quick tier sends about one job in eight across 2^32 (each costs ~4.3 GiB of reference hashing); the thorough tier one in two"],
     },
+    "C12": {
+        "title": "Dispatch binds only to code the CPU/OS can execute, one family per object",
+        "variant": "default",
+        "isaclass": True,
+        "quick": {"cases": 200000},
+        "thorough": {"cases": 4194304, "opts": ["exhaustive=1"], "exhaustive": True},
+        "level": "exploration",
+        "rule": "virtual CPUID/XCR0 assignments over 22 bits (SSE4.1, SSE4.2, OSXSAVE, AVX, AVX2, AVX-512 F/DQ/CD/BW/VL, SHA, VBMI2, GFNI, VAES, VPCLMULQDQ, VNNI, BITALG, "
+                "VPOPCNTDQ, Avoton model id, XCR0 SSE / YMM / opmask+ZMM) restricted to architecturally consistent ones; quick: 17 product-style profiles +- every "
+                "single bit plus random consistent assignments built by construction; thorough: ALL consistent assignments (complete enumeration of the 2^22 raw "
+                "space, split over the workers). For each assignment every dispatched entry point (hook: <entry>_dispatched/_mbinit/_dispatch_init) is re-armed and its "
+                "real resolver executed under the virtual CPU. Oracle: xgetbv never executed with OSXSAVE=0; every judged ISA class needed by the code reachable from "
+                "the bound target (tools/isaclass.py: objdump call-graph closure + GNU as re-assembly per instruction shape) is offered by the assignment incl. the "
+                "XCR0 state, except the documented SSE4.1 minimum of entries without a base implementation; entry points of one object bind to one family; the pointer "
+                "leaves the first-call stub and a later real call under a different virtual CPU neither re-resolves nor changes it. Non-trivial = assignment with a "
+                "partially present feature group. Distinct = the assignment.",
+        "assumptions": COMMON_ASSUME + ["instruction classes come from binutils' tables (trusted)", "classes the dispatchers cannot observe (AES-NI, PCLMULQDQ, SSSE3, BMI1/2, "
+                                        "POPCNT, FMA) are reported in the evidence notes, not judged", "indirect calls other than the dispatch pointers do not occur in the library"],
+    },
 }
 
 # properties not (yet) claimed; kept current as checks are added
